@@ -116,6 +116,14 @@ type ctx struct {
 	extra      map[string]interface{}
 }
 
+var traceF *os.File
+
+func init() {
+	if p := os.Getenv("HX_TRACE"); p != "" {
+		traceF, _ = os.Create(p)
+	}
+}
+
 func newCtx(prop string, seed uint64, tier, outDir string) *ctx {
 	c := &ctx{prop: prop, seed: seed, tier: tier, outDir: outDir, nontrivial: map[string]struct{}{}, dist: map[string]int{}, extra: map[string]interface{}{}}
 	var err error
@@ -146,6 +154,9 @@ func (c *ctx) corr(q, a string) {
 
 // count one evaluation of the direct oracle; key identifies the distinct case when non-trivial
 func (c *ctx) eval(nontrivialKey string) {
+	if traceF != nil { // crash location: one unbuffered line per case, written before the case runs
+		traceF.WriteString(fmt.Sprintf("%d:%s\n", c.evals, nontrivialKey))
+	}
 	c.evals++
 	if nontrivialKey != "" {
 		c.nontrivial[nontrivialKey] = struct{}{}
